@@ -34,6 +34,7 @@ RULE += (' Also: enters failing with a BaseException that is not an Exception.')
 RULE += (' Also: managers whose exit is a staticmethod / classmethod.')
 RULE += (' Also: callbacks (plain and async def) registered without any arguments and returning a true value; plain callbacks handing back a future-like (non-coroutine) awaitable.')
 RULE += (' Also: exit-only objects (no matching enter) pushed, also callable ones.')
+RULE += (' Also: a synchronous exit raising StopIteration, against nested statements written in one frame.')
 ASSUMPTIONS = ["nested async with/with statements of the running interpreter are the reference for routing",
                "__context__ chains are not compared"]
 EXHAUSTIVE_SUBSPACES = 'all 16842 stacks of <= 3 entries x block outcome; all histories of length <= 4 (thorough: 5) over 8 operations'
@@ -108,6 +109,13 @@ def cases(tier, seed, shard, nshards):
                 idx += 1
                 if idx % nshards == shard:
                     yield {"kind": "stack", "spec": [list(e) for e in spec], "body": body, "susp": 0}
+    if shard == 0:
+        for inner in ("enter_context", "push"):
+            for outer_suppresses in (False, True):
+                for body in (False, True):
+                    for stop in ("StopIteration", "StopIterationSub"):
+                        yield {"kind": "stop_from_sync_exit", "inner": inner, "outer_suppresses": outer_suppresses,
+                               "body": body, "stop": stop}
     rng = random.Random(f"C14-{seed}-{shard}")
     for _ in range(N_STACK4[tier] // nshards):
         n = rng.choice([4, 4, 5, 3, 2])
@@ -923,7 +931,87 @@ def run_history(case, stats):
             "sig": ("history", str(ops))}
 
 
+def run_stop_from_sync_exit(case, stats):
+    """A synchronous manager's ``__exit__`` raises StopIteration (it polled an exhausted iterator) while the stack
+    unwinds.  Written as nested statements IN ONE FRAME - ``async with outer: with inner: body`` - the outer exit receives
+    that very StopIteration (and may suppress it); the generator protocol turns it into a RuntimeError only where it
+    leaves the coroutine.  (The recursive reference of ``run_stack`` has a coroutine frame per level and cannot be used
+    for this exception type: that is why it is enumerated here, flat.)"""
+    CTX.reset()
+
+    class StopSub(StopIteration):
+        pass
+
+    stop_type = StopIteration if case["stop"] == "StopIteration" else StopSub
+
+    def parts(log):
+        stop = stop_type("the exit polled an exhausted iterator")
+
+        class Outer:
+            async def __aenter__(self):
+                log.append("enter outer")
+
+            async def __aexit__(self, et, ev, tb):
+                log.append(("exit outer", type(ev).__name__ if ev is not None else None, ev is stop))
+                return case["outer_suppresses"]
+
+        class Inner:
+            def __enter__(self):
+                log.append("enter inner")
+
+            def __exit__(self, et, ev, tb):
+                log.append(("exit inner", type(ev).__name__ if ev is not None else None))
+                raise stop
+
+        return Outer(), Inner(), stop
+
+    def outcome_of(coro, stop):
+        try:
+            drive(coro)
+            return ("ok",)
+        except BaseException as exc:  # noqa: BLE001
+            return ("raise", type(exc).__name__, exc is stop, type(exc.__cause__).__name__)
+
+    l1 = []
+    o1, i1, stop1 = parts(l1)
+
+    async def nested():
+        async with o1:
+            with i1:
+                l1.append("body")
+                if case["body"]:
+                    raise E("body")
+
+    want = outcome_of(nested(), stop1)
+    l2 = []
+    o2, i2, stop2 = parts(l2)
+
+    async def stacked():
+        async with A.ExitStack() as s:
+            await s.enter_context(o2)
+            if case["inner"] == "enter_context":
+                await s.enter_context(i2)
+            else:
+                i2.__enter__()
+                s.push(i2)
+            l2.append("body")
+            if case["body"]:
+                raise E("body")
+
+    got = outcome_of(stacked(), stop2)
+    viols = []
+    if (want, l1) != (got, l2):
+        viols.append({"key": "ExitStack/stop-iteration-from-a-synchronous-exit",
+                      "msg": f"{case}: nested statements in one frame give {want} {l1}; ExitStack gives {got} {l2}"})
+    if CTX.foreign:
+        viols.append({"key": "ExitStack/foreign-suspension", "msg": CTX.foreign[0]})
+    stats["stop_iteration_from_sync_exit_runs"] += 1
+    return {"violations": viols, "nontrivial": True, "sig": tuple(sorted(case.items()))}
+
+
 def run_case(case, stats: Counter):
+    if case["kind"] == "stop_from_sync_exit":
+        return run_stop_from_sync_exit(case, stats)
     if case["kind"] == "stack":
         return run_stack(case, stats)
     return run_history(case, stats)
